@@ -105,6 +105,12 @@ CHECKS = {
         '(C18_store_python_int, C18_in_range_is_exact); binary / hex strings in raw mode restore the code and the bitwise operators are exact at every width (C18_bin_roundtrip, C18_hex_roundtrip, C18_bitwise, instances of the all-width C11/C13 theorems); the indicator equals (64 <=? n_word). '
         'Tie: the listed word and fraction lengths, codes at/beyond both bounds, multiples of the modulus, random codes up to 4x the width, int / value / bin / hex inputs by three routes, val, flags, bin(), hex(), ~ & | ^, and the indicator through explicit sizes, dtype=, like=, best-size, resize, reset and bitwise routes.',
    design='7/C18', technique='Coq proof (object path = integer arithmetic, all widths) + differential correspondence'),
+
+ 'C06': dict(
+   text='Proof: the integer-bit search of set_best_sizes (a loop, modelled with fuel) tests exactly whether both extremes lie in [-2^i, 2^i) (C06_msb_test) and therefore returns the LEAST integer length holding them, by its loop invariant (C06_min_int_bits); '
+        'the reconciliation arithmetic of _init_size when n_int is given (C06_n_int_with_n_frac / _with_n_word). PARTIAL: minimality of the inferred fraction length (the binary-expansion loop, also modelled with fuel) and exactness of the stored values are not theorems yet. '
+        'The correspondence run checks exactness, minimal n_frac, minimal n_word, the only-n_word / only-n_frac / n_int rules against exact rationals for dyadic inputs k/2^f (f<=20, |k|<2^40) in every subset of given sizes and signedness, the capped non-dyadic case, and compares the model Sizes.init_size on every case.',
+   design='7/C06', technique='Coq proof (loop invariant of the integer-bit search) + differential correspondence'),
 }
 NA_REASON = 'check not built yet (work in progress; see DESIGN.md section 10 order of work)'
 def main():
